@@ -15,6 +15,7 @@ import (
 // Cache for tickets received from clients keyed by fully qualified client name. Used to track replay of tickets.
 type Cache struct {
 	entries map[string]clientEntries
+	maxSkew time.Duration // the largest clock skew any user of the cache has asked for
 	mux     sync.RWMutex
 }
 
@@ -91,11 +92,27 @@ func GetReplayCache(d time.Duration) *Cache {
 			for {
 				// TODO consider using a context here.
 				time.Sleep(d)
-				replayCache.ClearOldEntries(d)
+				replayCache.ClearOldEntries(replayCache.skew())
 			}
 		}()
 	})
+	// The cache is shared by every service in the process: entries are kept for the largest skew in use.
+	replayCache.raiseSkew(d)
 	return &replayCache
+}
+
+func (c *Cache) skew() time.Duration {
+	c.mux.RLock()
+	defer c.mux.RUnlock()
+	return c.maxSkew
+}
+
+func (c *Cache) raiseSkew(d time.Duration) {
+	c.mux.Lock()
+	defer c.mux.Unlock()
+	if d > c.maxSkew {
+		c.maxSkew = d
+	}
 }
 
 // AddEntry adds an entry to the Cache.
